@@ -177,7 +177,7 @@ def gen():
                 "  Definition code_edge_last (xp xl : T) : T := add O xl (mul O half (sub O xl xp)).",
                 "  Definition code_cdf_arg (edge q sigma : T) : T := div O (sub O edge q) (mul O sqrt2 sigma).",
                 "  Definition code_pin_elem (qc q sigma nlo nhi c0 c1 : T) : T := sub O c1 c0.",
-                "  Definition code_perp_elem (qi w e0 e1 : T) : T := zero O.",
+                "  Definition code_perp_elem (qi w e0 e1 : T) : T := div O (sub O (sqrtT e1) (sqrtT e0)) w.",
                 "  Definition code_apply (theory column : list T) : T := apply O theory column."]
     lines += ["Section Code.", "  Context {T : Type} (O : Ops T).", "  Variable sqrtT : T -> T.", "  Variables half sqrt2 : T.", ""] + defs + ["End Code.", ""]
     common.write_if_changed(os.path.join(common.THEORIES, "Gen", "C03_code.v"), "\n".join(lines))
